@@ -553,8 +553,10 @@ def fpointText (lo hi : Fl) (v : Option Str) : Conv (Fl × Fl) :=
     | .unsup => .unsup
     | .none => .err .BadType
     | .val x used =>
-      -- iterator exhausted after the first value: the second coordinate repeats the first (return 1)
-      let single := used ≥ s.length
+      -- iterator exhausted after the first value — the text ends there, or only white space follows an element that
+      -- ended at white space (6f4fa3a): the second coordinate repeats the first (return 1)
+      let tail := s.drop used
+      let single : Bool := tail.isEmpty || ((match tail with | c :: _ => isSpace c | [] => false) && (skipSpaces tail).isEmpty)
       let second : Conv Fl :=
         if single then .val x 0
         else
